@@ -6,6 +6,18 @@ import os
 ROOT = os.path.dirname(os.path.dirname(os.path.abspath(__file__)))
 
 CHECKS = {
+    "C11": dict(
+        cat="fault_enumeration", engine="Fault",
+        text="spec/Progress.tla models the reference walks (Parallels snapshot chain, Hyper-V object-table discovery) one action per loop "
+             "iteration and TLC checks Termination (liveness under weak fairness) and Bounded for all parent functions / reference sets; "
+             "spec/Fault.tla defines the fault catalogue (13 input kinds x listed fields x 9 value classes, truncations at every structure "
+             "boundary, cycles, inflate bombs, empty/random input) and the linear resource bound; TLC enumerates the catalogue, every entry "
+             "is applied to a valid encoder output and run in a supervised worker (deadline, address-space limit), and every recorded run "
+             "is judged by TLC against Fault!Bounded.",
+        note="'all byte strings' is approached by classes, not enumerated; the bounds are deliberately loose; PBKDF2 iteration counts "
+             "from the input are outside the bound",
+        technique="TLA+ liveness model of reference walks + TLC-enumerated fault catalogue replayed under a watchdog, runs validated by TLC",
+        design="5/C11"),
     "C15": dict(
         cat="model_checking", engine="VmxCrypto",
         text="spec/VmxCrypto.tla models the unlock protocol with symbolic cryptography (locator fall-through, decrypt, verify, commit) and "
